@@ -24,6 +24,7 @@ import (
 	"strings"
 	"time"
 
+	"github.com/go-logr/logr"
 	"go.opentelemetry.io/otel"
 	"go.opentelemetry.io/otel/sdk/verifh/vh"
 )
@@ -77,13 +78,19 @@ func inSet(obs, allowed []string) bool {
 	return false
 }
 
-// timing-sensitive observations are re-run before they count as a mismatch: a genuine
-// disagreement reproduces on every attempt, a scheduling hiccup does not.
+// An observation that is not admissible is re-run before it counts as a mismatch: a genuine
+// disagreement reproduces on every attempt, a scheduling hiccup (time-classified observations:
+// schedule delay, remaining deadline, queue saturation) does not.
 func retries(c Case) int {
-	if strings.HasSuffix(c.Setting, ".delay") || strings.HasSuffix(c.Setting, ".queue") {
-		return 3
+	if strings.HasSuffix(c.Setting, ".delay") {
+		return 5
 	}
-	return 1
+	return 3
+}
+
+// inconclusiveObs: the experiment did not work (watchdog / bound expired, nothing observable).
+func inconclusiveObs(obs []string) bool {
+	return len(obs) == 1 && (obs[0] == "HANG" || obs[0] == "unobservable" || strings.HasPrefix(obs[0], inconcl))
 }
 
 func clearEnv() {
@@ -112,6 +119,7 @@ type resultLine struct {
 	I       int      `json:"i"`
 	Case    Case     `json:"case"`
 	Allowed []string `json:"allowed"`
+	Ideal   []string `json:"ideal"`
 	Obs     []string `json:"obs"`
 	OK      bool     `json:"ok"`
 	Detail  string   `json:"detail"`
@@ -161,7 +169,16 @@ func replay(args []string) {
 		}
 		res.Executed++
 		ok := inSet(o.Obs, to.Allowed)
-		line := resultLine{I: i, Case: c, Allowed: to.Allowed, Obs: o.Obs, OK: ok, Detail: o.Detail, Env: o.Env, Opt: o.Opt,
+		if !ok && inconclusiveObs(o.Obs) {
+			// never a verdict
+			res.Inconcl(fmt.Sprintf("edge %d %s %s [%s]: %s env=%v opt=%s %s", i, c.Comp, c.Setting, c.kinds(), o.Obs[0], o.Env, o.Opt, o.Detail))
+			res.Count("inconclusive", 1)
+			ok = true
+		}
+		if o.Env == nil {
+			o.Env = []string{}
+		}
+		line := resultLine{I: i, Case: c, Allowed: to.Allowed, Ideal: to.Ideal, Obs: o.Obs, OK: ok, Detail: o.Detail, Env: o.Env, Opt: o.Opt,
 			Ms: time.Since(t0).Milliseconds(), Tries: tries}
 		b, _ := json.Marshal(line)
 		w.Write(b)
@@ -205,6 +222,17 @@ func randomMode(args []string) {
 		evs := randomScenario(r, conc, res)
 		for _, ev := range evs {
 			ev["sc"] = i
+			// TLC's JSON reader cannot represent null: no nil slices in the trace
+			if cs, ok := ev["cases"].([]caseObs); ok {
+				for j := range cs {
+					if cs[j].Env == nil {
+						cs[j].Env = []string{}
+					}
+					if cs[j].Obs == nil {
+						cs[j].Obs = []string{"?no-observation"}
+					}
+				}
+			}
 			tw.Emit(ev)
 		}
 		res.Executed++
@@ -224,8 +252,9 @@ func sortedCopy(s []string) []string {
 }
 
 func main() {
-	// the SDK reports configuration problems through the global error handler; keep them quiet
+	// the SDK reports configuration problems through the global error handler / logger; keep them quiet
 	otel.SetErrorHandler(otel.ErrorHandlerFunc(func(error) {}))
+	otel.SetLogger(logr.Discard())
 	if len(os.Args) < 2 {
 		fmt.Println("usage: c20 replay|random ...")
 		os.Exit(3)
